@@ -332,7 +332,15 @@ Section PREP.
       then match cand_lookup (expr_text e) cands with Some m => m | None => e end
       else
         let args' := map (prep_e env) args in
-        if String.eqb name "groupBitOr" then
+        (* LineFormatPlanner's sqlFormat: format('<pattern>', labels['a'], ...) read back as the shape LogqlTemplate.tpl_sql
+           builds and SqlEval interprets (pattern, at least one argument); the arguments are labels['name'] subscripts, read
+           back by subscript_of. Whatever pattern and arguments the implementation printed are kept: render = text decides. *)
+        if String.eqb name "format" then
+          match args' with
+          | StrV f :: ((_ :: _) as rest) => Sep "" [Raw "format("; StrV f; Raw ", "; Sep ", " rest; Raw ")"]
+          | _ => Fn name args'
+          end
+        else if String.eqb name "groupBitOr" then
           match args' with
           | [Sep sep parts] =>
             if String.eqb sep " + " then
@@ -491,6 +499,14 @@ Section CHECK.
   Definition sem2_bp_b (q : strsel) (c : pctx) (d : database) (res : list outrow) : bool :=
     perm_b res (log_rows2 re_match parse_float json_get hash_labels q c d) && ts_sorted_b (c_asc c) res.
 
+  (* fragment 3: the reference in which the LINE travels with the state (| line_format); on a pipeline without line_format
+     log_rows3 = log_rows2 (LogqlSem2Proofs.log_rows3_no_lfmt), so these two judge every case of the search *)
+  Definition sem3_b (q : strsel) (c : pctx) (d : database) (res : list outrow) : bool :=
+    if Z.eqb (c_limit c) 0 then perm_b res (log_rows3 re_match parse_float json_get hash_labels q c d)
+    else topk_b (c_asc c) (c_limit c) (log_rows3 re_match parse_float json_get hash_labels q c d) res.
+  Definition sem3_bp_b (q : strsel) (c : pctx) (d : database) (res : list outrow) : bool :=
+    perm_b res (log_rows3 re_match parse_float json_get hash_labels q c d) && ts_sorted_b (c_asc c) res.
+
   Definition gin_eqb (a b : gin_row) : bool :=
     Z.eqb (g_day a) (g_day b) && String.eqb (g_key a) (g_key b) && String.eqb (g_val a) (g_val b)
     && Z.eqb (g_fp a) (g_fp b) && Z.eqb (g_type a) (g_type b).
@@ -528,14 +544,16 @@ Section CHECK.
       (match head with HSimple s => simple_oracle_b s | HComplex f' => lf_oracle_b f' end)
       && match tail with None => true | Some t => lf_oracle_b t end
     end.
-  Definition stage_oracle_b (d : database) (s : stage) : bool :=
+  (* `more`: further lines the stage may meet - behind a line_format a line filter tests the FORMATTED line, which is no
+     stored line (check_case passes every subject of the regexp table for such a query) *)
+  Definition stage_oracle_b (d : database) (more : list string) (s : stage) : bool :=
     match s with
     | PLineFilter op val (Some (lit, insens)) =>
       match op with
       | LFRe | LFNre =>
-        forallb (fun x => Bool.eqb (re_match (x_line x) val)
-                                   (if insens then contains (to_lower lit) (to_lower (x_line x)) else contains lit (x_line x)))
-                (d_samples d)
+        forallb (fun l => Bool.eqb (re_match l val)
+                                   (if insens then contains (to_lower lit) (to_lower l) else contains lit l))
+                (map x_line (d_samples d) ++ more)
       | _ => true
       end
     | PLabelFilter f => lf_oracle_b f
@@ -545,7 +563,8 @@ Section CHECK.
                         | None => false end) (d_samples d)
     | _ => true
     end.
-  Definition oracle_ok_b (q : strsel) (d : database) : bool := forallb (stage_oracle_b d) (sel_pipeline q).
+  Definition oracle_ok_more_b (q : strsel) (d : database) (more : list string) : bool := forallb (stage_oracle_b d more) (sel_pipeline q).
+  Definition oracle_ok_b (q : strsel) (d : database) : bool := oracle_ok_more_b q d [].
 End CHECK.
 
 (* ---------- one case of the failing-input search ---------- *)
@@ -579,7 +598,7 @@ Definition judge (rg : ReGroups) (re : string -> string -> bool) (pf : string ->
   | Some rows =>
     let outs := map row_out rows in
     match map_opt (fun o => o) outs with
-    | Some os => ((if (if fin then sem2_b (RG := rg) re pf jg hl q c d os else sem2_bp_b (RG := rg) re pf jg hl q c d os)
+    | Some os => ((if (if fin then sem3_b (RG := rg) re pf jg hl q c d os else sem3_bp_b (RG := rg) re pf jg hl q c d os)
                    then 0 else 1)%Z, Some outs)
     | None => (1%Z, Some outs)
     end
@@ -603,7 +622,7 @@ Definition same_rows (a b : option (list (option outrow))) : bool :=
   | _, _ => false
   end.
 Record cverdict := {
-  cv_id : Z; cv_fragment : bool; cv_fragment2 : bool; cv_width : bool; cv_ctx_ok : bool;
+  cv_id : Z; cv_fragment : bool; cv_fragment2 : bool; cv_fragment3 : bool; cv_width : bool; cv_ctx_ok : bool;
   cv_text_ok : bool;               (* render (prep tree) = sc_sql *)
   cv_model_sel : bool;             (* the model planners produce a SELECT *)
   cv_wrefs : bool;                 (* ... whose WithRefs carry the queries their aliases are bound to *)
@@ -621,8 +640,10 @@ Definition check_case (s : scase) : cverdict :=
   let impl := prep (days_near c) (frag_cands q) (sc_tree s) in
   let text_ok := match render impl (c_cluster c) with Some t => String.eqb t (sc_sql s) | None => false end in
   let fin := sc_fin s in
+  let more := if existsb (fun st => match st with PLineFormat _ => true | _ => false end) (sel_pipeline q)
+              then map (fun e => fst (fst e)) (sc_re s) else [] in
   let msel := if fin then log_select q c else bp_select q c in
-  {| cv_id := sc_id s; cv_fragment := in_fragment q; cv_fragment2 := in_fragment2 q; cv_width := width_guard q; cv_ctx_ok := ctx_ok c;
+  {| cv_id := sc_id s; cv_fragment := in_fragment q; cv_fragment2 := in_fragment2 q; cv_fragment3 := in_fragment3 q; cv_width := width_guard q; cv_ctx_ok := ctx_ok c;
      cv_text_ok := text_ok;
      cv_model_sel := match msel with Some _ => true | None => false end;
      cv_wrefs := match msel with Some m => wrefs_bound m | None => true end;
@@ -633,6 +654,6 @@ Definition check_case (s : scase) : cverdict :=
        let '(vi, got) := judge rg re pf jg hl tie_id fin q c d impl in
        let '(vr, _) := judge rg re pf jg hl tie_rev fin q c d impl in
        let '(vm, mgot) := match msel with Some m => judge rg re pf jg hl tie_id fin q c d m | None => (2%Z, None) end in
-       {| v_db_ok := db_ok_b c d; v_absent := absent_guard_b re q d; v_oracle := oracle_ok_b (RG := rg) re pf q d;
+       {| v_db_ok := db_ok_b c d; v_absent := absent_guard_b re q d; v_oracle := oracle_ok_more_b (RG := rg) re pf q d more;
           v_impl := vi; v_impl_rev := vr; v_model := vm; v_same := same_rows got mgot; v_got := got;
-          v_want := log_rows2 (RG := rg) re pf jg hl q c d; v_nsamples := Z.of_nat (List.length (d_samples d)) |}) (sc_dbs s) |}.
+          v_want := log_rows3 (RG := rg) re pf jg hl q c d; v_nsamples := Z.of_nat (List.length (d_samples d)) |}) (sc_dbs s) |}.
